@@ -17,7 +17,7 @@ import (
 )
 
 type Ctx struct {
-	Type       string `json:"type"` // onStartup Schedule Synchronization Event Group Validating Mutating Conversion
+	Type       string `json:"type"` // onStartup Schedule Synchronization Event Group Validating Mutating Conversion untyped
 	Binding    string `json:"binding"`
 	WatchEvent string `json:"watchEvent,omitempty"`
 	GroupName  string `json:"groupName,omitempty"`
@@ -91,7 +91,9 @@ func candidates(c Ctx) []string {
 }
 
 func genCtx(t *rapid.T) Ctx {
-	c := Ctx{Type: rapid.SampledFrom([]string{"onStartup", "Schedule", "Synchronization", "Event", "Event", "Event", "Group", "Validating", "Mutating", "Conversion"}).Draw(t, "type")}
+	// "untyped": a context without a type, as hooks with a configVersion v0 configuration receive them (and as
+	// derived operators send for bindings of their own): only __main__ is documented for it
+	c := Ctx{Type: rapid.SampledFrom([]string{"onStartup", "Schedule", "Synchronization", "Event", "Event", "Event", "Group", "Validating", "Mutating", "Conversion", "untyped"}).Draw(t, "type")}
 	c.Binding = rapid.SampledFrom(bindingPool).Draw(t, "binding")
 	if rapid.IntRange(0, 11).Draw(t, "spaced") == 0 {
 		c.Binding = rapid.SampledFrom(spacedPool).Draw(t, "sbinding")
@@ -150,6 +152,9 @@ func gen(t *rapid.T) Case {
 	if rapid.Bool().Draw(t, "extra") {
 		add("__on_kubernetes::other::added")
 	}
+	if rapid.IntRange(0, 2).Draw(t, "extraStartup") == 0 {
+		add("__on_startup")
+	}
 	if rapid.IntRange(0, 3).Draw(t, "main") > 0 {
 		add("__main__")
 	}
@@ -161,6 +166,10 @@ func render(c Ctx) map[string]any {
 	m := map[string]any{"binding": c.Binding}
 	switch c.Type {
 	case "onStartup":
+	case "untyped":
+		m["resourceEvent"] = "add"
+		m["resourceKind"] = "Pod"
+		m["resourceName"] = "p"
 	case "Event":
 		m["type"] = "Event"
 		m["watchEvent"] = c.WatchEvent
@@ -353,7 +362,7 @@ func tail(s string) string {
 	return s
 }
 
-const rule = "generated bash hooks that source the repository's shell_lib.sh (strict mode) and frameworks/shell, defining a generated subset of the documented handler names for the contexts in play (plus optionally __main__, always __config__), each handler logging name/index/current binding and returning a scripted status (a quarter of the successful handlers also read their standard input, which is /dev/null as under the operator; a quarter end with 'exit 0' after changing directory and shell options); binding-context files with 0-5 contexts (1 in 8 files: 9-23 contexts; 1 in 16 Event/Synchronization contexts ~200 KiB large) of every type (onStartup, Schedule, Synchronization, Event x3, Group, Validating, Mutating, Conversion with short/full versions), binding names from a pool incl. dots/dashes and, 1 in 12, names with spaces from the documentation; run by real bash+jq; oracle: Go reference dispatcher (first defined candidate most-to-least specific, else __main__; stop non-zero at first failing/undefined). Non-trivial: a context with >= 2 defined candidates, or a failing/undefined context that is not the last."
+const rule = "generated bash hooks that source the repository's shell_lib.sh (strict mode) and frameworks/shell, defining a generated subset of the documented handler names for the contexts in play (plus optionally __main__, always __config__), each handler logging name/index/current binding and returning a scripted status (a quarter of the successful handlers also read their standard input, which is /dev/null as under the operator; a quarter end with 'exit 0' after changing directory and shell options); binding-context files with 0-5 contexts (1 in 8 files: 9-23 contexts; 1 in 16 Event/Synchronization contexts ~200 KiB large) of every type (onStartup, Schedule, Synchronization, Event x3, Group, Validating, Mutating, Conversion with short/full versions, and contexts without a type as configVersion v0 hooks get them: only __main__ applies, also when __on_startup is defined), binding names from a pool incl. dots/dashes and, 1 in 12, names with spaces from the documentation; run by real bash+jq; oracle: Go reference dispatcher (first defined candidate most-to-least specific, else __main__; stop non-zero at first failing/undefined). Non-trivial: a context with >= 2 defined candidates, or a failing/undefined context that is not the last."
 
 func TestDispatch(t *testing.T) {
 	ev.Main(t, ev.Spec[Case]{Property: "C19", Part: "dispatch", Rule: rule, Gen: gen, Run: runCase})
